@@ -262,6 +262,7 @@ MONITOR_PROPS = {
     "TwoWinners": ["C07"],
     "ApathTable": ["C11", "C12"],
     "WalkOrder": ["C11"],
+    "WalkSet": ["C11", "C15"],
     "ExcludeBackup": ["C15"],
     "ExcludeAgree": ["C15"],
     "NotDeterministic": ["C17"],
